@@ -230,6 +230,13 @@ def run(db, chk):
             ok = ws <= {"set_slope_exp"} and bool(ws)
             chk.ob("C13-L2", "%s written by %s" % (f, sorted(ws)), ok, where=fn.ploc,
                    function=fn.bn, construct="writers(%s)" % f, extra={"unit": fn.unit.name})
+    if chk.want("C13-L4"):
+        from .persist import sibling_setters
+        from ..effects import Effects
+        chk.rule("C13-L4", "the overloads of a setter of the eroder agree on the state they replace: nothing that "
+                 "erode() reads and one overload of set_k_coef updates (a cache, a stride, a flag) is left "
+                 "describing the previous coefficient by the other overload", min_instances=2)
+        sibling_setters(db, Effects(db), chk, "C13-L4", SPL)
     # ---- N1: the Newton iteration may only stop on a two-sided test of the residual
     for fn in db.fns(SPL + "::erode"):
         tests = convergence_tests(fn)
